@@ -7,6 +7,7 @@ package main
 import (
 	"bytes"
 	"fmt"
+	"sort"
 	"strings"
 
 	"pvharness/lib"
@@ -35,8 +36,23 @@ func (k *chk) num(check string, got, want int) {
 	}
 }
 
-// flush reports the failed checks. Some defects are recorded under one narrow key that names the
-// exact combination of failed checks (so any other combination is a new violation).
+// knownSets: defects recorded under one narrow key = the exact set of failed checks of a path.
+// Any other set of failed checks on that path is reported check by check (new violation).
+var knownSets = map[string]string{
+	"rs|icmp-type,ip6-dst,mcast6-mac":             "rs-without-icmp6-header-to-ff02-1",
+	"rs|icmp-type":                                "rs-without-icmp6-header",
+	"ra|icmp-type,icmp6-checksum":                 "ra-without-icmp6-header",
+	"ra|icmp-type":                                "ra-without-icmp6-header",
+	"mdnsq|dst4-mac":                              "ip4-multicast-sent-to-ethernet-broadcast",
+	"llmnrq|dst4-mac,ip4-dst":                     "llmnr-query-to-224.0.0.251-ethernet-broadcast",
+	"ssdp|dst4-mac,ssdp-request-line":             "ssdp-msearch-lf-line-ends-ethernet-broadcast",
+	"sleepproxy|udp6-checksum":                    "udp6-checksum-zero",
+	"nbnsq|eth-src-is-host":                       "nbns-ether-src-is-caller-mac",
+	"discover|dhcp-ciaddr":                        "discover-unset-ciaddr-keeps-stale-buffer-bytes",
+	"release|dhcp-options":                        "dhcp-release-without-client-and-server-id",
+}
+
+// flush reports the failed checks.
 func (k *chk) flush(f []byte) {
 	if len(k.bad) == 0 {
 		return
@@ -45,21 +61,17 @@ func (k *chk) flush(f []byte) {
 	for n := range k.bad {
 		names = append(names, n)
 	}
-	key := ""
-	switch {
-	case k.path == "arp-request" && len(k.bad) == 3 && k.has("eth-dst", "arp-hlen", "arp-plen") && f[4] == 6 && f[5] == 4:
-		key = "arpreq-hlen-plen-in-ether-header"
-	case k.path == "arp-request" && len(k.bad) <= 2 && k.only("eth-dst", "arp-hlen", "arp-plen") && f[4] == 6 && f[5] == 4:
-		key = "arpreq-hlen-plen-in-ether-header" // junk or the requested address happened to hold 6 / 4
-	case k.path == "ns" && len(k.bad) == 1 && k.has("ndp-option-type"):
-		key = "ns-option-type-2"
+	sort.Strings(names)
+	key := knownSets[k.path+"|"+strings.Join(names, ",")]
+	if k.path == "arp-request" && k.only("eth-dst", "arp-hlen", "arp-plen") && f[4] == 6 && f[5] == 4 {
+		key = "arpreq-hlen-plen-in-ether-header" // (junk or the requested address may happen to hold 6 / 4)
 	}
 	if key != "" {
 		k.r.Viol(key, k.path+": "+k.describe(), k.replay)
 		return
 	}
-	for n, d := range k.bad {
-		k.r.Viol("c07."+k.path+"."+n, k.path+" "+n+": "+d+" frame="+lib.Hex(f), k.replay)
+	for _, n := range names {
+		k.r.Viol("c07."+k.path+"."+n, k.path+" "+n+": "+k.bad[n]+" frame="+lib.Hex(f), k.replay)
 	}
 }
 func (k *chk) has(names ...string) bool {
@@ -290,7 +302,387 @@ func oracle(r *lib.Run, kind string, c nicCfg, a []string, obs string) {
 					}
 				}
 			}
+		case "rs":
+			k.path = "rs"
+			ip6 := k.ether(f, []byte{0x33, 0x33, 0, 0, 0, 2}, c.hostMAC, 0x86dd)
+			allRouters := []byte{0xff, 2, 0, 0, 0, 0, 0, 0, 0, 0, 0, 0, 0, 0, 0, 2}
+			m, hop := k.ip6(ip6, 58, as16(c.hostLLA.AsSlice()), allRouters)
+			if len(ip6) >= 40 {
+				k.mcast6MAC(f, ip6[24:40])
+			}
+			k.num("ndp-hop-255", hop, 255)
+			if len(m) < 8 {
+				k.fail("icmp-short", "len %d", len(m))
+				break
+			}
+			k.num("icmp-type", int(m[0]), 133)
+			k.num("icmp-code", int(m[1]), 0)
+			if lib.RFC1071(pseudo6(ip6, 58)) != 0 {
+				k.fail("icmp6-checksum", "does not verify")
+			}
+			if m[0] == 133 {
+				ty, vals := k.ndpOptions(m[8:])
+				if len(ty) == 1 {
+					k.num("ndp-option-type", ty[0], 1)
+					k.eq("ndp-option-lla", vals[0], c.hostMAC)
+				} else if len(ty) > 1 {
+					k.fail("ndp-option-count", "%d options", len(ty))
+				}
+			}
+		case "ra":
+			k.path = "ra"
+			ip6 := k.ether(f, u(0), c.hostMAC, 0x86dd)
+			m, hop := k.ip6(ip6, 58, as16(c.hostLLA.AsSlice()), as16(u(1)))
+			if isLinkLocal6(as16(u(1))) {
+				k.num("ndp-hop-255", hop, 255)
+			}
+			if len(m) < 16 {
+				k.fail("icmp-short", "len %d", len(m))
+				break
+			}
+			k.num("icmp-type", int(m[0]), 134)
+			if lib.RFC1071(pseudo6(ip6, 58)) != 0 {
+				k.fail("icmp6-checksum", "does not verify")
+			}
+			if m[0] == 134 {
+				k.num("icmp-code", int(m[1]), 0)
+				k.num("ra-lifetime", be(m[6:8]), 1800)
+				ty, vals := k.ndpOptions(m[16:])
+				ra := parseRA(a[2], a[3])
+				want := []int{}
+				if ra.rdnss != nil {
+					want = append(want, 25)
+				}
+				for range ra.prefixes {
+					want = append(want, 3)
+				}
+				want = append(want, 31, 5, 1)
+				if fmt.Sprint(ty) != fmt.Sprint(want) {
+					k.fail("ra-options", "option types %v want %v", ty, want)
+				} else {
+					k.eq("ndp-option-lla", vals[len(vals)-1], c.hostMAC)
+					mtu := vals[len(vals)-2]
+					k.num("ra-mtu", int(mtu[2])<<24|int(mtu[3])<<16|int(mtu[4])<<8|int(mtu[5]), c.mtu&0xffffffff)
+					o := 0
+					if ra.rdnss != nil {
+						o = 1
+					}
+					for i, p := range ra.prefixes {
+						v := vals[o+i]
+						k.num("ra-prefix-len", int(v[0]), int(p.PrefixLength))
+						k.num("ra-prefix-flags", int(v[1]), 0xc0)
+						k.eq("ra-prefix", v[14:30], p.Prefix)
+					}
+				}
+			}
+		case "purge6":
+			ti := u(1)
+			isLL := ti[0] == 0xfe && ti[1]&0xc0 == 0x80
+			if isLL {
+				k.path = "purge-ns"
+				sn := []byte{0xff, 2, 0, 0, 0, 0, 0, 0, 0, 0, 0, 1, 0xff, ti[13], ti[14], ti[15]}
+				ip6 := k.ether(f, []byte{0x33, 0x33, 0xff, ti[13], ti[14], ti[15]}, c.hostMAC, 0x86dd)
+				m, hop := k.ip6(ip6, 58, c.hostLLA.AsSlice(), sn)
+				k.num("ndp-hop-255", hop, 255)
+				if len(m) < 24 {
+					k.fail("ndp-short", "len %d", len(m))
+					break
+				}
+				k.num("icmp-type", int(m[0]), 135)
+				k.eq("ns-target", m[8:24], ti)
+				if lib.RFC1071(pseudo6(ip6, 58)) != 0 {
+					k.fail("icmp6-checksum", "does not verify")
+				}
+				ty, vals := k.ndpOptions(m[24:])
+				if len(ty) == 1 {
+					k.num("ndp-option-type", ty[0], 1)
+					k.eq("ndp-option-lla", vals[0], c.hostMAC)
+				} else if len(ty) > 1 {
+					k.fail("ndp-option-count", "%d options", len(ty))
+				}
+			} else {
+				k.path = "purge-echo6"
+				ip6 := k.ether(f, u(0), c.hostMAC, 0x86dd)
+				m, _ := k.ip6(ip6, 58, c.hostLLA.AsSlice(), ti)
+				if len(m) < 8 {
+					k.fail("icmp-short", "len %d", len(m))
+					break
+				}
+				k.num("icmp-type", int(m[0]), 128)
+				k.num("echo-id", be(m[4:6]), atoi(a[2]))
+				if lib.RFC1071(pseudo6(ip6, 58)) != 0 {
+					k.fail("icmp6-checksum", "does not verify")
+				}
+			}
+		case "arpraw", "arpreply":
+			k.path = kind
+			op := 1
+			if kind == "arpreply" {
+				op = 2
+			}
+			k.arp(k.ether(f, u(0), c.hostMAC, 0x0806), op, u(1), u(2), u(3), u(4))
+		case "arpreq":
+			k.path = kind
+			k.arp(k.ether(f, bcastMAC, c.hostMAC, 0x0806), 1, c.hostMAC, c.hostIP.AsSlice(), bcastMAC, u(0))
+		case "arpprobe":
+			k.path = kind
+			k.arp(k.ether(f, bcastMAC, c.hostMAC, 0x0806), 1, c.hostMAC, []byte{0, 0, 0, 0}, []byte{0, 0, 0, 0, 0, 0}, u(0))
+		case "arpreqto":
+			k.path = kind
+			k.arp(k.ether(f, u(0), c.hostMAC, 0x0806), 1, c.hostMAC, c.hostIP.AsSlice(), bcastMAC, u(1))
+		case "arpannounce":
+			k.path = kind
+			k.arp(k.ether(f, u(0), c.hostMAC, 0x0806), 1, c.hostMAC, u(1), bcastMAC, u(1))
+		case "huntstart":
+			k.path = kind
+			k.arp(k.ether(f, u(0), c.hostMAC, 0x0806), 1, c.hostMAC, c.routerIP.AsSlice(), bcastMAC, c.routerIP.AsSlice())
+		case "huntstop":
+			k.path = kind
+			k.arp(k.ether(f, u(0), c.hostMAC, 0x0806), 1, c.routerMAC, c.routerIP.AsSlice(), c.routerMAC, c.routerIP.AsSlice())
+		case "arpspoofreply":
+			k.path = kind
+			k.arp(k.ether(f, u(0), c.hostMAC, 0x0806), 2, c.hostMAC, c.routerIP.AsSlice(), u(0), u(1))
+		case "dhcpreply":
+			k.path = kind
+			pl := k.udp4(f, u(0), c.hostMAC, c.hostIP.AsSlice(), u(1), 67, 68, true)
+			k.eq("udp-payload", pl, u(2))
+			if d := k.dhcp(pl); d != nil {
+				k.num("dhcp-op", int(pl[0]), 2)
+				if len(d[53]) != 1 {
+					k.fail("dhcp-msgtype", "message type option %x", d[53])
+				}
+			}
+		case "discover", "decline", "release":
+			k.path = kind
+			pl := k.udp4(f, c.routerMAC, c.hostMAC, c.hostIP.AsSlice(), c.routerIP.AsSlice(), 68, 67, false)
+			d := k.dhcp(pl)
+			if d == nil {
+				break
+			}
+			k.num("dhcp-op", int(pl[0]), 1)
+			k.num("dhcp-htype", int(pl[1]), 1)
+			k.num("dhcp-hlen", int(pl[2]), 6)
+			k.num("dhcp-hops", int(pl[3]), 0)
+			k.num("dhcp-flags", be(pl[10:12]), 0)
+			k.eq("dhcp-yi-si-gi", pl[16:28], make([]byte, 12))
+			k.eq("dhcp-legacy", pl[34:236], make([]byte, 202))
+			if len(pl) < 300 {
+				k.fail("dhcp-min-300", "len %d", len(pl))
+			}
+			want := map[byte][]byte{}
+			switch kind {
+			case "discover":
+				k.eq("dhcp-chaddr", pl[28:34], u(0))
+				ci := []byte{0, 0, 0, 0}
+				if a[1] != "-" {
+					ci = u(1)
+				}
+				k.eq("dhcp-ciaddr", pl[12:16], ci)
+				if a[2] != "-" {
+					k.eq("dhcp-xid", pl[4:8], u(2))
+				}
+				want[53], want[55] = []byte{1}, []byte{53, 1, 121, 3, 6, 15}
+				if a[3] != "-" {
+					want[12] = u(3)
+				}
+			case "decline":
+				k.eq("dhcp-chaddr", pl[28:34], u(0))
+				k.eq("dhcp-ciaddr", pl[12:16], []byte{0, 0, 0, 0})
+				want[53], want[61], want[54], want[50], want[56] = []byte{4}, u(1), u(2), u(3), []byte("netfilter decline")
+			case "release":
+				k.eq("dhcp-chaddr", pl[28:34], u(0))
+				k.eq("dhcp-ciaddr", pl[12:16], u(3))
+				want[53], want[61], want[54], want[56] = []byte{7}, u(1), u(2), []byte("netfilter release")
+			}
+			if len(want) != len(d) {
+				k.fail("dhcp-options", "got %d options want %d", len(d), len(want))
+				if !(kind == "release" && len(d) == 1 && len(d[53]) == 1 && d[53][0] == 7) {
+					k.fail("dhcp-options-other", "unexpected option set %v", d)
+				}
+				break
+			}
+			for c, v := range want {
+				if !bytes.Equal(d[c], v) {
+					k.fail("dhcp-options", "option %d got %x want %x", c, d[c], v)
+				}
+			}
+		case "mdnsq", "llmnrq":
+			k.path = kind
+			dip, port, qt := []byte{224, 0, 0, 251}, 5353, 255
+			if kind == "llmnrq" {
+				dip, port, qt = []byte{224, 0, 0, 252}, 5355, 255
+			}
+			pl := k.udp4(f, nil, c.hostMAC, c.hostIP.AsSlice(), dip, port, port, true)
+			k.dnsQuery(pl, -1, strings.Split(strings.TrimSuffix(string(u(0)), "."), "."), qt, 255)
+		case "ssdp":
+			k.path = kind
+			pl := k.udp4(f, nil, c.hostMAC, c.hostIP.AsSlice(), []byte{239, 255, 255, 250}, 1900, 1900, true)
+			if !bytes.HasPrefix(pl, []byte("M-SEARCH * HTTP/1.1\r\n")) {
+				k.fail("ssdp-request-line", "payload starts %q", string(pl[:min(len(pl), 24)]))
+			}
+		case "nbnsq":
+			k.path = kind
+			pl := k.udp4(f, u(2), c.hostMAC, u(1), u(3), 137, 137, false)
+			k.dnsQuery(pl, atoi(a[4]), []string{nbLabel(u(5))}, 32, 1)
+		case "nbnsstat":
+			k.path = kind
+			pl := k.udp4(f, bcastMAC, c.hostMAC, c.hostIP.AsSlice(), []byte{255, 255, 255, 255}, 137, 137, true)
+			k.dnsQuery(pl, atoi(a[0]), []string{nbLabel([]byte("*"))}, 33, 1)
+		case "sleepproxy":
+			k.path = kind
+			if len(u(1)) == 4 {
+				pl := k.udp4(f, u(2), c.hostMAC, u(1), u(3), atoi(a[4]), atoi(a[4]), false)
+				k.eq("udp-payload", pl, u(5))
+			} else {
+				ip6 := k.ether(f, u(2), c.hostMAC, 0x86dd)
+				m, _ := k.ip6(ip6, 17, as16(u(1)), as16(u(3)))
+				if len(m) < 8 {
+					k.fail("udp-short", "len %d", len(m))
+					break
+				}
+				k.num("udp-sport", be(m[0:2]), atoi(a[4]))
+				k.num("udp-dport", be(m[2:4]), atoi(a[4]))
+				k.num("udp-len", be(m[4:6]), len(m))
+				k.eq("udp-payload", m[8:], u(5))
+				if be(m[6:8]) == 0 || lib.RFC1071(pseudo6(ip6, 17)) != 0 {
+					k.fail("udp6-checksum", "checksum field %04x", be(m[6:8]))
+				}
+			}
 		}
 		k.flush(f)
 	}
+}
+
+var bcastMAC = []byte{255, 255, 255, 255, 255, 255}
+
+func min(a, b int) int {
+	if a < b {
+		return a
+	}
+	return b
+}
+
+// udp4 checks Ethernet/IPv4/UDP of a datagram sent by the host and returns the UDP payload.
+// dmac nil: the destination MAC is not given by a caller; ownDst: the library chose the destination,
+// so the MAC must be the one RFC 1112 / broadcast rules derive from the IP destination.
+func (k *chk) udp4(f []byte, dmac, hostMAC, sip, dip []byte, sp, dp int, ownDst bool) []byte {
+	if dmac == nil && len(f) >= 6 {
+		dmac = f[0:6]
+	}
+	m := k.ip4(k.ether(f, dmac, hostMAC, 0x0800), 17, sip, dip)
+	if ownDst && len(f) >= 34 {
+		d := f[30:34]
+		switch {
+		case d[0]>>4 == 14:
+			k.eq("dst4-mac", f[0:6], []byte{0x01, 0x00, 0x5e, d[1] & 0x7f, d[2], d[3]})
+		case bytes.Equal(d, []byte{255, 255, 255, 255}):
+			k.eq("dst4-mac", f[0:6], bcastMAC)
+		}
+	}
+	if len(m) < 8 {
+		k.fail("udp-short", "len %d", len(m))
+		return nil
+	}
+	k.num("udp-sport", be(m[0:2]), sp)
+	k.num("udp-dport", be(m[2:4]), dp)
+	k.num("udp-len", be(m[4:6]), len(m))
+	if be(m[6:8]) != 0 {
+		ip := f[14:]
+		psh := append(append([]byte{}, ip[12:20]...), 0, 17, byte(len(m)>>8), byte(len(m)))
+		if lib.RFC1071(append(psh, m...)) != 0 {
+			k.fail("udp4-checksum", "non-zero checksum does not verify")
+		}
+	}
+	return m[8:]
+}
+
+// dhcp parses a BOOTP/DHCP payload: cookie, options up to End; returns the options.
+func (k *chk) dhcp(p []byte) map[byte][]byte {
+	if len(p) < 240 {
+		k.fail("dhcp-short", "len %d", len(p))
+		return nil
+	}
+	if !bytes.Equal(p[236:240], []byte{99, 130, 83, 99}) {
+		k.fail("dhcp-cookie", "%x", p[236:240])
+		return nil
+	}
+	d := map[byte][]byte{}
+	o := p[240:]
+	for {
+		if len(o) == 0 {
+			k.fail("dhcp-no-end", "options run to the end without End")
+			return nil
+		}
+		if o[0] == 255 {
+			for _, x := range o[1:] {
+				if x != 0 {
+					k.fail("dhcp-after-end", "non-zero bytes after End")
+					break
+				}
+			}
+			return d
+		}
+		if o[0] == 0 {
+			o = o[1:]
+			continue
+		}
+		if len(o) < 2 || len(o) < 2+int(o[1]) {
+			k.fail("dhcp-option-truncated", "option %d", o[0])
+			return nil
+		}
+		if _, dup := d[o[0]]; dup {
+			k.fail("dhcp-option-duplicate", "option %d", o[0])
+		}
+		d[o[0]] = o[2 : 2+int(o[1])]
+		o = o[2+int(o[1]):]
+	}
+}
+
+// dnsQuery checks a one-question DNS query (id < 0: any id).
+func (k *chk) dnsQuery(p []byte, id int, labels []string, qtype, qclass int) {
+	if len(p) < 12 {
+		k.fail("dns-short", "len %d", len(p))
+		return
+	}
+	if id >= 0 {
+		k.num("dns-id", be(p[0:2]), id)
+	}
+	if p[2]&0xf8 != 0 {
+		k.fail("dns-not-a-query", "flags %04x", be(p[2:4]))
+	}
+	k.num("dns-qdcount", be(p[4:6]), 1)
+	k.num("dns-other-counts", be(p[6:8])+be(p[8:10])+be(p[10:12]), 0)
+	q := p[12:]
+	got := []string{}
+	for {
+		if len(q) == 0 || int(q[0]) > 63 || len(q) < 1+int(q[0]) {
+			k.fail("dns-name", "malformed question name")
+			return
+		}
+		if q[0] == 0 {
+			q = q[1:]
+			break
+		}
+		got = append(got, string(q[1:1+int(q[0])]))
+		q = q[1+int(q[0]):]
+	}
+	if strings.Join(got, "\x00") != strings.Join(labels, "\x00") {
+		k.fail("dns-name", "labels %q want %q", got, labels)
+	}
+	if len(q) != 4 {
+		k.fail("dns-question-tail", "%d bytes after the name", len(q))
+		return
+	}
+	k.num("dns-qtype", be(q[0:2]), qtype)
+	k.num("dns-qclass", be(q[2:4]), qclass)
+}
+
+// nbLabel: RFC 1001 first-level encoding of a name padded to 16 bytes with spaces.
+func nbLabel(name []byte) string {
+	n := append(append([]byte{}, name...), bytes.Repeat([]byte{' '}, 16)...)[:16]
+	out := make([]byte, 0, 32)
+	for _, ch := range n {
+		out = append(out, 'A'+ch>>4, 'A'+ch&15)
+	}
+	return string(out)
 }
